@@ -259,6 +259,12 @@ def run(ctx):
             if any(call_name(c) == "send_produce_request" for c in n.calls()):
                 inc = [m.id for m in cf2.nodes if m.kind == "stmt" and isinstance(m.stmt, ast.AugAssign) and self_attr(
                     m.stmt.target) == "_req_attempts" and isinstance(m.stmt.op, ast.Add)]
+                regn = [m.id for m in cf2.nodes if any(call_name(c) in ("addBoth", "addCallbacks", "addCallback", "addErrback") and c.args and
+                                                      unparse(c.args[0]) == "self." + hsr.name for c in m.calls())]
+                r.check(bool(inc) and bool(regn) and all(cf2.dominates(inc, x) for x in regn), "%s#attempt-counted-before-handler" % f.qname,
+                        "the response handler is attached before the attempt is counted (it runs at once when the client's Deferred has "
+                        "already failed and then reads a stale attempt count)", where(f, n.stmt),
+                        "client fails the send synchronously (no leader / closed): one attempt more than max_req_attempts")
                 r.check(bool(inc) and not cf2.normal_exits_from(n.id, avoid=inc), "%s#attempt-increment" % f.qname,
                         "a produce send is not followed by `_req_attempts += 1` on every path", where(f, n.stmt),
                         "more produce attempts than max_req_attempts")
@@ -336,6 +342,10 @@ MUTANTS = [
     {"id": "no-attempt-increment", "file": "producer.py",
      "old": "            self._req_attempts += 1\n            # add our handlers. Only the payloads of this attempt",
      "new": "            # add our handlers. Only the payloads of this attempt", "expect": "C09.R5"},
+    {"id": "attempt-counted-after-handler", "file": "producer.py",
+     "old": "            self._req_attempts += 1\n            # add our handlers. Only the payloads of this attempt can fail (or\n            # be retried) from here on: the others have been acknowledged.\n            retried = {tp: p for tp, p in payloadsByTopicPart.items() if p in payloads}\n            d.addBoth(self._handle_send_response, retried, deferredsByTopicPart)\n",
+     "new": "            retried = {tp: p for tp, p in payloadsByTopicPart.items() if p in payloads}\n            d.addBoth(self._handle_send_response, retried, deferredsByTopicPart)\n            self._req_attempts += 1\n",
+     "expect": "C09.R5", "note": "seeded C09-4"},
     {"id": "limit-off-by-one", "file": "producer.py", "old": "            if self._req_attempts >= self._max_attempts:\n                # No, no retries left",
      "new": "            if self._req_attempts > self._max_attempts:\n                # No, no retries left", "expect": "C09.R5"},
     {"id": "backoff-not-growing", "file": "producer.py",
